@@ -28,6 +28,7 @@ type Prov struct {
 	CopyIsFresh bool // effect analysis: Copy()/Clone() results are fresh memory, not the argument
 	allocDepth map[ssa.Value]int
 	loadCtx  []ssa.Instruction // the load instruction(s) through which the current value is read
+	expansions map[string]string // atom of a call to a single-expression module helper -> atom of its body
 	reachMemo map[[2]*ssa.BasicBlock]bool
 }
 
@@ -592,6 +593,27 @@ func (pv *Prov) Atom(v ssa.Value, env *Env) string {
 		for _, a := range x.Call.Args {
 			args = append(args, pv.Atom(a, env))
 		}
+		// single-expression module helpers: remember what the call stands for (matchers may retry with it)
+		if f := x.Call.StaticCallee(); f != nil && !pv.CopyIsFresh && pv.p.InModule(f) && len(f.Blocks) == 1 && f.Signature.Results().Len() == 1 && pv.depth < 40 {
+			if ret, ok := f.Blocks[0].Instrs[len(f.Blocks[0].Instrs)-1].(*ssa.Return); ok && len(ret.Results) == 1 && len(f.Blocks[0].Instrs) <= 16 {
+				ne := &Env{params: map[*ssa.Parameter]string{}, freevars: map[*ssa.FreeVar]string{}}
+				for i, prm := range f.Params {
+					if i < len(args) {
+						ne.params[prm] = args[i]
+					}
+				}
+				if len(f.FreeVars) == 0 {
+					saved := pv.loadCtx
+					pv.loadCtx = nil
+					body := pv.Atom(ret.Results[0], ne)
+					pv.loadCtx = saved
+					if pv.expansions == nil {
+						pv.expansions = map[string]string{}
+					}
+					pv.expansions["call "+name+"("+strings.Join(args, ", ")+")"] = body
+				}
+			}
+		}
 		// Share/Copy/Move of an element are identity for provenance (for effect analysis Copy is fresh memory)
 		if f := x.Call.StaticCallee(); f != nil && f.Pkg != nil && f.Pkg.Pkg.Path() == modPath+"/types" && len(args) == 1 {
 			switch f.Name() {
@@ -699,4 +721,43 @@ func allocAddressTaken(al *ssa.Alloc) bool {
 		}
 	}
 	return false
+}
+
+// ExpandAll replaces recorded call atoms of single-expression helpers inside s by the atom of the helper's
+// body (one level), except helpers that the pattern the caller wants to match names itself.
+// Matchers use it to be insensitive to the extraction of small helpers.
+func (pv *Prov) ExpandAll(s string, pattern ...string) string {
+	keep := func(k string) bool {
+		// k = "call <name>(args)": the helper's name up to the first "("-after-name
+		name := strings.TrimPrefix(k, "call ")
+		if i := strings.Index(name, ")."); i >= 0 {
+			if j := strings.Index(name[i+2:], "("); j >= 0 {
+				name = name[i+2 : i+2+j]
+			}
+		} else if j := strings.Index(name, "("); j >= 0 {
+			name = name[:j]
+		}
+		for _, p := range pattern {
+			if strings.Contains(p, name) {
+				return true
+			}
+		}
+		return false
+	}
+	for i := 0; i < 3; i++ {
+		changed := false
+		for k, v := range pv.expansions {
+			if keep(k) {
+				continue
+			}
+			if strings.Contains(s, k) {
+				s = strings.ReplaceAll(s, k, v)
+				changed = true
+			}
+		}
+		if !changed {
+			break
+		}
+	}
+	return s
 }
